@@ -207,6 +207,11 @@ func curvedShapes() []shape {
 		{mv, 0, 0, mv, cb, 6, 6, -6, 6, 0, 0, cb, cl, 0, 0, cl},                           // teardrop: ONE closed cubic returning to its start with a corner (zero-length close)
 		{mv, 0, 0, mv, cb, -6, 6, 6, 6, 0, 0, cb, cl, 0, 0, cl},                           // the same, clockwise
 		{mv, 0, 0, mv, ar, 3, 2, 0, 3, 0, 1, ar, cl, 0, 0, cl},                            // one large arc closed by a short line
+		{mv, 0, 0, mv, cb, 0, 0, 2, 0, 4, 2, cb},                                          // cubic whose first control point is its start point (zero derivative at t=0)
+		{mv, -2, 0, mv, ln, 0, 0, ln, cb, 0, 0, 2, 0, 4, 2, cb},                           // the same after a line (tangent continuation)
+		{mv, 0, 0, mv, cb, 2, 2, 4, 0, 4, 0, cb},                                          // cubic whose last control point is its end point
+		{mv, 0, 0, mv, cb, 2, 2, 4, 0, 4, 0, cb, ln, 6, -2, ln},                           // the same followed by a line
+		{mv, 0, 0, mv, cb, 0, 0, 4, 2, 4, 2, cb},                                          // both control points on the end points (a straight line written as a cubic)
 		{mv, 0, 0, mv, ar, 6, 3, 40 * math.Pi / 180, 0, 9.6, 3.6, ar},                     // long span of a 2:1 ellipse, rotated (the offset of an ellipse is not an ellipse)
 		{mv, 0, 0, mv, ar, 6, 2, 0, 0, 12, 0, ar},                                         // half of a 3:1 ellipse
 	}
